@@ -673,6 +673,7 @@ def classify(cfg, cmd, first, guard_collision):
     msg = re.sub(r"^.*?(error|warning): ", "", first)
     msg = re.sub(r"[‘'`\"][^’'`\"]*[’'`\"]", "N", msg)
     msg = re.sub(r"\d+", "#", msg)
+    msg = re.sub(r"\b\w+(?:\.\w+)+\.#\.#", "T", msg)     # dotted DSDL type names
     return f"{cfg.target}:{flag or 'error'}:{msg[:70]}"
 
 
@@ -1085,7 +1086,7 @@ def run(ctx: common.Ctx):
                 if rel == "__stray__":
                     ctx.count("py_top_level_init_py_of_an_empty_root_namespace(not imported)")
                     continue
-                cause = re.sub(r"\d+", "#", re.sub(r"'[^']*'", "N", msg))[:70]
+                cause = re.sub(r"\b\w+_#_#\.py", "F.py", re.sub(r"\d+", "#", re.sub(r"'[^']*'", "N", msg)))[:70]
                 if "nunavut_support" in msg and c.omit:
                     cause = "support-module-not-generated"
                 ctx.fail({"kind": "python-import", "cause": cause}, f"{rel} ({c.ident}): {msg}", replay_blob(u, c, {"module": rel, "message": msg}))
@@ -1107,7 +1108,7 @@ def run(ctx: common.Ctx):
             for rel, msg in res.items():
                 if rel == "__stray__":
                     continue
-                cause = re.sub(r"\d+", "#", re.sub(r"'[^']*'", "N", msg))[:70]
+                cause = re.sub(r"\b\w+_#_#\.py", "F.py", re.sub(r"\d+", "#", re.sub(r"'[^']*'", "N", msg)))[:70]
                 if "nunavut_support" in msg and c.omit:
                     cause = "support-module-not-generated"
                 ctx.fail({"kind": "python-import", "cause": cause}, f"{rel} ({c.ident}), fresh interpreter: {msg}", replay_blob(u, c, {"module": rel, "message": msg}))
